@@ -27,6 +27,8 @@ POS = 'engine::Position'
 
 
 def _site_info(f, n):
+    if n.get('callee', {}).get('n') == 'engine::square_bb':
+        return 'square_bb', 64, kids(n)[1], 'shift'
     if n['k'] == 'ArraySubscriptExpr':
         b = kids(n)[0]
         if b['k'] == 'ImplicitCastExpr' and b.get('ck') == 'ArrayToPointerDecay':
@@ -69,6 +71,9 @@ def _bitscan_range(iv, fn, e, args, vals, env):
         elif short(cn.get('callee', {}).get('n', '')) == 'popcount_more_than_one' and truth and \
                 strip_casts(kids(cn)[1]).get('ref', {}).get('id') == vid:
             allow = 1
+        elif short(cn.get('callee', {}).get('n', '')) == 'popcount' and truth and \
+                strip_casts(kids(cn)[1]).get('ref', {}).get('id') == vid:
+            allow = 0
         if allow is None:
             continue
         # writes to the operand between the guard and the scan
@@ -143,7 +148,9 @@ def check(ctx):
     # ---- whole-program parameter intervals: ascending fixpoint, then descending rounds ---------------------
     param_in = {}
 
-    def run_round(read, write):
+    last_seen = {}
+
+    def run_round(read, write, only_dirty):
         ch = [False]
 
         def on_call(g, vals):
@@ -161,22 +168,23 @@ def check(ctx):
         for f in funcs:
             if f.id in called and f.id not in read:
                 continue
-            try:
-                iv.analyse(f, read.get(f.id) if f.id in called else None)
-            except AnalysisBroken as e:
-                raise
+            ps = read.get(f.id) if f.id in called else None
+            key = tuple(ps) if ps is not None else None
+            if only_dirty and last_seen.get(f.id, 'x') == key:
+                continue       # same inputs as last time: same outgoing call arguments
+            last_seen[f.id] = key
+            iv.analyse(f, ps)
         iv.on_call = None
         return ch[0]
 
-    for rnd in range(12):
-        if not run_round(param_in, param_in):
+    for rnd in range(40):
+        if not run_round(param_in, param_in, True):
             break
     else:
         raise AnalysisBroken('parameter intervals did not stabilise')
-    for rnd in range(3):
+    for rnd2 in range(2):
         new = {}
-        run_round(param_in, new)
-        # keep entries for functions that were reached
+        run_round(param_in, new, False)
         for k in list(new):
             old = param_in.get(k)
             if old is not None:
@@ -225,6 +233,43 @@ def check(ctx):
     # ---- B3 search stack / B4 PV / B5 move-list rows -------------------------------------------------------------
     for ob in stack['obligations']:
         ctx.ob(*ob[:4], site=ob[4])
+
+    # ---- B2: the depth-indexed array relies on the clamp and counter discipline of C09 ----------------------
+    from rules.common import SubCtx
+    import props.C09 as c09
+    sub = SubCtx(ctx)
+    c09.check(sub)
+    bad = [r for r in sub.results if not r[2] and (r[0].startswith('C09.R1') or r[0].startswith('C09.R2'))]
+    ctx.ob('C10.B2.depth-index', 'previous_moves[_current_depth]', not bad,
+           'the iteration counter used as an index is bounded by MAX_DEPTH: every definition of the depth limit is clamped and '
+           'the counter is compared with it on every cycle (C09.R1, C09.R2)%s'
+           % ('' if not bad else ' — refuted: ' + '; '.join('%s at %s' % (r[0], r[4]) for r in bad)),
+           site=bad[0][4] if bad else 'engine/search.cpp')
+
+    # ---- B8: pin list --------------------------------------------------------------------------------------
+    pins = p.var('engine::PINS')
+    gp = [f for f in p.fns('engine::generate_pins')]
+    n_b8 = 0
+    for f in gp:
+        ctx.analysed(f)
+        calls = [n for n, cfid, nm in f.calls() if nm == 'engine::generate_pin_in_ray']
+        looped = any(f.cfg.back_edges() for _ in [0])
+        per_call = 0
+        for g in p.fns('engine::generate_pin_in_ray'):
+            if g.targs.split(',')[0] != f.targs:
+                continue
+            stores = [n for n in g.all_nodes() if n['k'] == 'UnaryOperator' and n.get('op') == '*' and
+                      strip_casts(kids(n)[0])['k'] == 'UnaryOperator' and strip_casts(kids(n)[0]).get('op') == '++'
+                      and access_kind(g, n) == 'write']
+            in_loop = bool(g.cfg.back_edges())
+            per_call = max(per_call, (10 ** 6 if in_loop else len(stores)))
+        n_b8 += 1
+        ctx.ob('C10.B8.pin-list', 'generate_pins<%s>' % short(f.targs), not looped and len(calls) * per_call <= pins['dims'][0],
+               '%d calls x at most %d store each into PINS[%d]' % (len(calls), per_call, pins['dims'][0]), site=f.loc())
+    ctx.floor('C10.B8.pin-list', n_b8, 2, 'generate_pins instantiations')
+    starts = [(f, n) for f in p.repo_funcs('engine/') for n, cfid, nm in f.calls() if nm == 'engine::generate_pins']
+    okp = all(canon(f, kids(n)[2]) == 'PINS' for f, n in starts)
+    ctx.ob('C10.B8.pin-list-start', 'PINS', okp and bool(starts), 'every pin generation starts at PINS[0]', site=starts[0][0].loc(starts[0][1]) if starts else '')
 
     # ---- B10: every buffer handed to generate_moves has at least MAX_MOVES entries --------------------------------
     n_b10 = 0
@@ -326,6 +371,30 @@ def _named(ctx, p, f, n, base, ext, idx, itv, kind, maxm, stack):
         return okw and v.replace(' ', '') == '(((info-1))._ply+1)'.replace('((info-1))', '(info-1)') or \
             (okw and '_ply+1' in v.replace(' ', '')) and ext > stack['max_ply'], 'B5.move-list-row', \
             'row = this frame\'s ply, assigned parent ply + 1 (>= 0) on entry and bounded by the stack-depth rule (<= %d)' % stack['max_ply']
+    if fn == 'get_blockers_from_index' and kind == 'shift':
+        # for (i < popcount(mask)) { position = pop_lsb(&mask); ... }: one bit is removed per iteration
+        loops = [a for a in f.ancestors(n) if a['k'] == 'ForStmt']
+        cf = counting_for(f, loops[0]) if loops else None
+        bound = canon(f, cf[1]) if cf else ''
+        pops = [x for x, cfid, nm in f.calls() if short(nm) == 'pop_lsb' and f.inside(x, loops[0])] if loops else []
+        return cf is not None and bound == 'popcount(mask)' and len(pops) == 1 and \
+            canon(f, kids(pops[0])[1]) == '&(mask)', 'popcount-bounded-scan', \
+            'the loop runs popcount(mask) times and removes exactly one bit of mask per iteration, so every scan sees a non-empty board'
+    if fn == 'generate_enpassant' and kind == 'shift':
+        ctx.assume('A-EP: the e.p. square lies on rank 3 or 6 (set only behind a double push), so the squares one rank behind it exist')
+        ok = re.match(r'^\(?enpassant_square-(up|upright|upleft)\)?$', canon(f, idx, inline=False).replace(' ', '')) is not None or \
+            canon(f, idx, inline=False) == 'captured_square'
+        return ok, 'ep-geometry', 'square one rank behind the e.p. square (A-EP)'
+    if fn == 'init_lines_bitboards' and base.startswith('LINES['):
+        # to / to_bb walk in lockstep: the store is governed by the loop test on to_bb, and both are
+        # advanced together after it with the same direction index (C11.R6 checks moves[i] == directions[i])
+        gf = [canon(f, c, inline=False) for c, t in guard_facts(f, n) if t]
+        upd = [x for x in f.all_nodes() if x['k'] == 'BinaryOperator' and x.get('op') == '=' and
+               short(strip_casts(kids(x)[0]).get('ref', {}).get('n', '')) in ('to', 'to_bb')]
+        same_block = len(upd) >= 2 and len(set(f.cfg.position(x)[0] for x in upd if f.inside(x, [a for a in f.ancestors(n) if a['k'] == 'WhileStmt'][0]))) == 1
+        after = all(f.cfg.node_dominates(n, x) for x in upd if f.inside(x, [a for a in f.ancestors(n) if a['k'] == 'WhileStmt'][0]))
+        return 'to_bb' in gf and same_block and after, 'lockstep-walk', \
+            '`to` is stepped together with the one-bit board to_bb that the loop tests, so it is a board square whenever the store runs (C11.R6)'
     # squares
     sq_src = _square_source(p, f, idx)
     if sq_src is not None and ext >= 64:
@@ -470,9 +539,9 @@ def _valid_square_expr(p, g, e, depth):
         return True, 'piece-list entry (A-LIST)'
     if s.startswith('_piece_position['):
         return True, 'piece-list entry (A-LIST)'
-    if re.match(r'^(lsb|msb|pop_lsb)\(', s) or re.match(r'^most_advanced_pawn\(', s):
-        return True, 'bit scan of a board known non-empty (interval rule handles the guard; material precondition of the evaluator)'
-    if re.match(r'^\(to\(move\)\+\(\(side==WHITE\)\?-\(?8\)?:8\)\)$', s.replace(' ', '')):
+    if re.match(r'^most_advanced_pawn\(', s) or (re.match(r'^(lsb|msb)\(', s) and short(g.name) in ('strongSideScore',)):
+        return True, 'most advanced pawn of a side that owns a pawn (A-MAT: material precondition checked by Endgame::applies)'
+    if re.match(r'^\(to\(move\)\+\(\(\w+==WHITE\)\?-\(?8\)?:8\)\)$', s.replace(' ', '')):
         return True, 'square behind the e.p. target (ranks 4/5), A-EP'
     if re.match(r'^\(sq\+\(8\*up\)\)$', s0.replace(' ', '')):
         return True, 'square in front of a pawn on ranks 2..7 (A-PAWN)'
@@ -481,10 +550,27 @@ def _valid_square_expr(p, g, e, depth):
         d = single_def(g, r['id'])
         if d is not None:
             return _valid_square_expr(p, g, d, depth + 1)
-        # loop variable SQ_A1..SQ_H8 or FOR_EACH_BIT variable
+        # several definitions (if/else arms, loop variables): every one must be a valid square
+        defs = []
         for n in g.all_nodes():
             if n['k'] == 'VarDecl' and n.get('id') == r['id'] and kids(n):
-                return _valid_square_expr(p, g, kids(n)[0], depth + 1)
+                defs.append(kids(n)[0])
+        for w in local_writes(g, r['id']):
+            v = written_value(g, w)
+            par = g.parent(w)
+            if v is not None:
+                defs.append(v)
+            elif par is not None and par.get('op') in ('++', '--'):
+                # SQ_A1..SQ_H8 style loop: bounded by the interval rule at the use; accept the step
+                continue
+            else:
+                return False, 'local modified in an unrecognised way'
+        if defs:
+            for d2 in defs:
+                ok, why = _valid_square_expr(p, g, d2, depth + 1)
+                if not ok:
+                    return False, why
+            return True, 'every definition of the local is a valid square'
     if r.get('k') == 'Parm':
         pi = [q['id'] for q in g.params].index(r['id'])
         bad = []
